@@ -13,6 +13,7 @@ import (
 
 	"github.com/google/reftable"
 
+	"verif/internal/hist"
 	"verif/internal/hx"
 	"verif/model/fmtspec"
 	"verif/model/refdb"
@@ -500,6 +501,10 @@ func runWorker(prop, tier string, wi, wn int, res *workerResult) {
 		runStacks(prop, tier, wi, wn, p, res)
 		return
 	}
+	if prop == "C14" {
+		// the stack half: every table file written by Add and by compaction in the history search
+		hist.RunC07("C14", tier, wi, wn, res)
+	}
 	unit := 0
 	mine := func() bool { unit++; return (unit-1)%wn == wi }
 	yield := func(c *tablegen.Case) { checkTable(prop, c, res) }
@@ -541,6 +546,13 @@ func replayCase(prop string, raw json.RawMessage, res *workerResult) error {
 	}
 	if cj.Family == "stack" {
 		return replayStack(prop, raw, res)
+	}
+	if cj.Family == "history" {
+		var hj struct{ History json.RawMessage }
+		if err := json.Unmarshal(raw, &hj); err != nil {
+			return err
+		}
+		return hist.ReplayC07(prop, hj.History, res)
 	}
 	c := &tablegen.Case{Family: cj.Family, Cfg: cj.Cfg, Min: cj.Min, Max: cj.Max, Refs: cj.Refs, Logs: cj.Logs, Note: cj.Note}
 	if prop == "C11" {
